@@ -37,20 +37,21 @@ Fixpoint vm_toks (flags : list bool) (outs : list out) : list vm_tok :=
 Definition vm_fuel : nat := (1000 * 100)%nat.
 Definition vm_graph (ct : amap) (ops : list op) (flags : list bool) : list vm_tok :=
   vm_toks flags (snd (run ct vm_fuel init_state ops)).
-Fixpoint vm_store (content : node -> list node) (isman : node -> bool) (univ : list N) (s : ostore)
-         (ops : list (option oop)) : list vm_tok * bool :=
+Fixpoint vm_store (content : node -> list node) (isman : node -> bool) (univ : list N) (a : astore)
+         (ops : list (option aop)) : list vm_tok * bool :=
   match ops with
   | [] => ([], true)
   | None :: r =>
-      let (t, ok) := vm_store content isman univ s r in
+      let (t, ok) := vm_store content isman univ a r in
+      let s := a_s a in
       (TBl (vm_srt (o_blobs s)) ::
        map (fun i => TP (vm_known (predecessors_raw (o_graph s) i)) (vm_unk (predecessors_raw (o_graph s) i))) univ ++ t, ok)
   | Some o :: r =>
-      let (s', ok1) := ostep true true true content isman vm_fuel s o in
-      let (t, ok2) := vm_store content isman univ s' r in (t, ok1 && ok2)
+      let (a', ok1) := astep content isman vm_fuel a o in
+      let (t, ok2) := vm_store content isman univ a' r in (t, ok1 && ok2)
   end.
-Definition vm_store_case (ct : amap) (mans univ : list N) (ops : list (option oop)) : list vm_tok * bool :=
-  vm_store (ctab ct) (fun x => smem x mans) univ empty_store ops.
+Definition vm_store_case (ct : amap) (mans univ : list N) (ops : list (option aop)) : list vm_tok * bool :=
+  vm_store (ctab ct) (fun x => smem x mans) univ empty_astore ops.
 """
 
 
@@ -115,19 +116,23 @@ def _vm_goal(case, out):
             if k == "S":
                 ops.append("None")
             elif k == "P":
-                ops.append("Some (PPush %s)" % a)
+                ops.append("Some (AOp (PPush %s))" % a)
             elif k == "T":
-                ops.append("Some (PTag %s)" % a)
+                ops.append("Some (AOp (PTag %s))" % a)
             elif k == "U":
-                ops.append("Some (PUntag %s)" % a)
+                ops.append("Some (AOp (PUntag %s))" % a)
             elif k == "X":
-                ops.append("Some (PDelete %s)" % a)
+                ops.append("Some (AOp (PDelete %s))" % a)
             elif k == "G":
-                ops.append("Some (PGC %s)" % _vm_list([x for x in a.split(".") if x]))
+                ops.append("Some (AOp (PGC %s))" % _vm_list([x for x in a.split(".") if x]))
             elif k == "O":
-                ops.append("Some PReopen")
+                ops.append("Some (AOp PReopen)")
             elif k == "F":
-                ops.append("Some (PForeign %s)" % _vm_list([x for x in a.split(".") if x]))
+                ops.append("Some (AOp (PForeign %s))" % _vm_list([x for x in a.split(".") if x]))
+            elif k == "Y":
+                ops.append("Some (ASetAuto %s)" % ("true" if a == "1" else "false"))
+            elif k == "W":
+                ops.append("Some ASaveIndex")
             else:
                 return None
         return ("vm_store_case (%s)%%N (%s)%%N (%s)%%N (%s)%%N\n  = ((%s)%%N, true)"
